@@ -114,6 +114,7 @@ type Engine struct {
 	FuncsRun     map[string]bool
 	StubsUsed    map[string]bool
 	ExpectPanic  bool
+	Witness      map[string]uint64
 	reportPanics bool
 	verbose      bool
 	traceCalls   bool
@@ -141,6 +142,7 @@ type Engine struct {
 	httpSt       *httpState
 	vclock       int64
 	hangLimit    int
+	udpSt        *udpState
 	idleWakeups  int
 }
 
@@ -195,6 +197,7 @@ func (e *Engine) resetPath() {
 	e.httpSt = nil
 	e.vclock = 0
 	e.hangLimit = 0
+	e.udpSt = nil
 	e.idleWakeups = 0
 }
 
